@@ -56,6 +56,12 @@ theorem pool_put_deferred :
     Gen.Writes.poolCalls = ["magic.newReader:readerPool.Get:direct", "magic.sv:readerPool.Put:deferred",
       "json.Parse:parserPool.Get:direct", "json.Parse:parserPool.Put:deferred"] := by decide
 
+/-- **regenerated obligation**: no function of the detection packages stores through an index
+    expression into anything but a local map and the tokenizer's private buffer: in particular no
+    caller-owned slice (input bytes, alias lists handed to `Extend`) is written, inside or outside a lock -/
+theorem no_shared_slice_writes :
+    Gen.Writes.indexWrites = ["charset.fromHTML:attrList[ks]", "charset.fromHTML:val[i]"] := by decide
+
 /-- the limit is loaded exactly once per detection (so the slicing and the detectors see the
     same value: the result is the sequential result for the limit at that instant) -/
 theorem limit_loaded_once :
